@@ -75,6 +75,7 @@ func c09Scenario(r *vf.Run, t *testing.T, id string, rng *rand.Rand) {
 			so.MaxConcurrentStreams = 2
 		}
 		e := rt.NewServerEnv(id, so)
+		e.P.Write(rt.WindowUpdate(0, 1<<30)) // the connection window never limits the well-formed streams
 		var good []*reqSpec
 		nextStream := 0
 		newGood := func(extra []F) *reqSpec {
@@ -85,11 +86,15 @@ func c09Scenario(r *vf.Run, t *testing.T, id string, rng *rand.Rand) {
 				q.Fields = append(q.Fields, f)
 			}
 			q.Choices = []hpackref.Choice{{Rep: hpackref.RepIndexed, NameIndex: true, HuffValue: true, HuffName: true}, incr, lit}
-			e.H.Plans[q.Tag] = q.Resp
+			e.H.SetPlan(q.Tag, q.Resp)
 			good = append(good, q)
 			return q
 		}
 		sendGood := func(q *reqSpec) {
+			if hasRefused {
+				// with a concurrency limit of 2 a conforming peer only opens a stream when it has a free slot
+				rt.Wait()
+			}
 			var out []byte
 			out = append(out, q.headerBytes(e.P)...)
 			for _, u := range q.dataUnits() {
@@ -185,14 +190,17 @@ func c09Scenario(r *vf.Run, t *testing.T, id string, rng *rand.Rand) {
 				serverResets = true
 			case "refused":
 				// fill both slots with parked handlers first
+				rt.Wait()
 				for k := 0; k < 2; k++ {
 					q := newGood(nil)
 					gt := e.H.NewGate()
 					parkGates = append(parkGates, gt)
 					pl := *q.Resp
 					pl.Gate = gt
-					e.H.Plans[q.Tag] = &pl
+					e.H.SetPlan(q.Tag, &pl)
+					hasRefused = false
 					sendGood(q)
+					hasRefused = true
 				}
 				rt.Wait()
 				n = nextStream
@@ -212,6 +220,7 @@ func c09Scenario(r *vf.Run, t *testing.T, id string, rng *rand.Rand) {
 				for _, gt := range parkGates {
 					rt.Open(gt)
 				}
+				rt.Wait()
 			case "peer-rst-after-headers", "peer-rst-mid-body", "peer-rst-handler-running", "peer-rst-response-blocked", "peer-rst-after-done":
 				fs := append(append([]F{}, base...), ins1, ins2)
 				inserted = append(inserted, ins1, ins2)
@@ -224,7 +233,7 @@ func c09Scenario(r *vf.Run, t *testing.T, id string, rng *rand.Rand) {
 				case "peer-rst-response-blocked":
 					pl.Body = make([]byte, 200000) // more than the 65535 initial window
 				}
-				e.H.Plans[tag] = pl
+				e.H.SetPlan(tag, pl)
 				blk := enc(fs, choicesFor(fs))
 				switch kind {
 				case "peer-rst-after-headers":
@@ -246,11 +255,12 @@ func c09Scenario(r *vf.Run, t *testing.T, id string, rng *rand.Rand) {
 				rt.Wait()
 				if gt != nil {
 					rt.Open(gt)
+					rt.Wait()
 				}
 			case "handler-panic":
 				fs := append(append([]F{}, base...), ins1, ins2)
 				inserted = append(inserted, ins1, ins2)
-				e.H.Plans[tag] = &rt.RespPlan{Panic: true}
+				e.H.SetPlan(tag, &rt.RespPlan{Panic: true})
 				e.P.Write(rt.Concat(rt.HeaderFrames(sid, enc(fs, choicesFor(fs)), nil, -1, nil, true)))
 			case "window-overflow":
 				fs := append(append([]F{}, base...), ins1, ins2)
